@@ -923,8 +923,13 @@ def apply_maploops(ed, it, closures, src, ann, qual, relpath):
 def apply_forloops(ed, loops, src, ann, qual):
     # D3: `for PAT in EXPR { BODY }` -> index `while` loop over EXPR (BODY copied by span; `continue` gets the increment)
     for k, inv in (ann.get("forloops") or {}).items():
-        k = int(k)
+        optional = str(k).strip().endswith(" opt")
+        k = int(str(k).split()[0])
         if k >= len(loops) or loops[k]["kind"] != "for":
+            if optional:
+                # `//@forloop k opt`: the loop is gone (rewritten without a loop): the function is verified without the invariant
+                ed.log.append({"file": "", "line": 0, "rule": "A1", "note": f"for-loop annotation #{k} not applied: {qual} has no such loop any more"})
+                continue
             raise Inconclusive(f"anchor lost: for-loop #{k} of {qual}")
         l = loops[k]
         xs, xe = l["iter_expr"]
